@@ -69,7 +69,7 @@ def ridge_items(chk, quick):
 def run(chk):
     quick = chk.tier == "quick"
     fc = s5.enumerate_formspace(chk, facets=True)
-    sel = s5.sample_cases(fc, 34 if quick else 500, chk.seed, max_cost=60 if quick else 300)
+    sel = s5.sample_cases(fc, 34 if quick else 400, chk.seed, max_cost=60 if quick else 150)
     # derivative tables on every facet of the tensor-product cells (their facets differ in which reference
     # derivative is constant along them)
     der = [c for c in fc if c["term"] in ("flux", "avgflux") and c["cell"] in ("quadrilateral", "hexahedron", "prism") and c["rule"] != "vertex"]
@@ -86,9 +86,10 @@ def run(chk):
     for j, cl in enumerate(("triangle", "tetrahedron", "hexahedron", "quadrilateral")):
         cs = [c for c in fc if c["cell"] == cl and c["measure"] == "dS" and c["elem"] == "P1" and c["rule"] == "custom"
               and c["term"] in (("coefpm", "pm") if quick else ("coefpm", "pm", "jump", "avgflux"))]
-        for i, c in enumerate(s5.sample_cases(cs, 1 if quick else 3, chk.seed + 30 + j)):
+        heavy = cl == "hexahedron"                  # one exact hexahedron interior-facet tensor costs minutes in TLC
+        for i, c in enumerate(s5.sample_cases(cs, 1 if (quick or heavy) else 3, chk.seed + 30 + j)):
             items.append({"case": c, "seed": chk.seed * 100003 + 900 + 10 * j + i, "scalar": "float64", "ninputs": 1,
-                          "builder": "harness.corpus.realise_facet", "npairs": 1 if quick else 3, "allperms": True,
+                          "builder": "harness.corpus.realise_facet", "npairs": 1 if (quick or heavy) else 2, "allperms": True,
                           "label": s5.case_label(c) + "|allperms"})
     # S7: the table pipeline (clamp / classify / compress / dedupe / access) with injected tables, facet scope
     from .. import s7
